@@ -43,7 +43,7 @@ def _specs() -> Dict[str, Dict[str, Any]]:
         "batches": [
             {"name": "history", "args": {"kind": "history"}, "runs": {"quick": 200, "thorough": 6000}},
             {"name": "decode", "args": {"kind": "decode"}, "runs": {"quick": 120, "thorough": 2500}},
-            {"name": "env", "args": {"kind": "env"}, "runs": {"quick": 64, "thorough": 1200}},
+            {"name": "env", "args": {"kind": "env"}, "runs": {"quick": 96, "thorough": 1600}},
         ],
         "rule": ("three kinds of simulated run. history: a seeded sequence of 2-10 symbol-table operations (add_symbols, "
                  "add_symbols_mp on a lock-step fork pool whose tape interleaves the workers' individual queue puts, clone, "
